@@ -2,6 +2,7 @@ import Proofs.KNCount
 import Proofs.KNBlocks
 import Proofs.KNC07Base
 import Proofs.KNC07Discharge
+import Proofs.KNSorters
 /-!
 # C07 — Estimation result is independent of memory budget, block sizes and scheduling
 
@@ -320,6 +321,50 @@ theorem lmplz_indep_discharged {Mem Sched Out : Type}
   lmplz_indep_discharged_pf I render opts hN text hash unk bos eos unkCapHash xOf hx h_enc hsp hinj hnz hmax h_sortImpl h_chainImpl m₁ m₂ s₁ s₂
 
 end discharged
+
+open KV.KN.Interp KV.Vocab in
+/-- **C07, as far as the hypotheses can be discharged today.**  Any two memory configurations and any
+two schedules give the same output.  What is *proved* inside: block-size independence of
+CorpusCount (`count_block_indep`), vocabulary ids independent of `--vocab_estimate` / doubling history
+(C20 `vocab_ids_indep'`), the first external sort independent of blocks, tie-break policy and merge
+plan (C16 `extSort_canon`/`Canon.unique`/`counting_suffix`), special ids never reach `Append`, the
+later context/suffix sorts may be ANY correct sorts chosen per configuration, schedule and order
+(`estimateFromWith_eq`: the sorted permutation of records with distinct n-grams is unique), and the
+streaming stages equal the specification (C05 `estimate_eq_spec`, not needed for this statement).
+What is still *assumed* (each named):
+* `h_enc`, `hx` — the encoder is `GrowableVocab` (C20's model `growableIds`) with some initial size;
+* `hinj`, `hnz`, `hmax`, `hsp` — the 64-bit Murmur hash is injective and non-zero on the words that
+  occur, fewer than 2^32−1 types, the three special strings differ;
+* `h_sortImpl` — the sort after CorpusCount is some run of C16's `extSort` model;
+* `h_stages` — the threads over the chains compute the composition of the stage functions of
+  Model/KN.lean (`estimateFromWith`, with whatever sorters); C17's `chain_ring` gives this for
+  stateless per-block stages only (`chain_stream_deterministic`), not for these stream functions;
+* `h_sorters` — those later sorts return sorted permutations (what C16 proves of `extSort`/`codeSort`);
+* `hk` — the tree has the repaired special-unigram handling (`keep_specials_tree` in C05/C06);
+* `render` is an arbitrary function of the exact model: float32 arithmetic, `log10f` and printing live
+  there and are deterministic functions of their inputs (not modelled). -/
+theorem lmplz_indep_final {W : Type} [DecidableEq W] {Mem Sched Out : Type}
+    (I : Impl Mem Sched (List (List W)) Out) (render : Except Err Model → Out) (opts : Opts)
+    (hN : 1 ≤ opts.cfg.order) (text : List (List W))
+    (hash : W → Nat) (unk bos eos : W) (unkCapHash : Nat) (xOf : Mem → Nat)
+    (hx : ∀ m, 1 ≤ xOf m ∧ xOf m ≤ 2^63)
+    (h_enc : ∀ m t, I.encode m t = growableIds hash unk bos eos unkCapHash (xOf m) t)
+    (hsp : unk ≠ bos ∧ unk ≠ eos ∧ bos ≠ eos)
+    (hinj : InjOn hash ([unk, bos, eos] ++ text.flatten))
+    (hnz : ∀ w, w ∈ [unk, bos, eos] ++ text.flatten → hash w ≠ 0)
+    (hmax : (specEncode unk bos eos text).2 < kWordIndexMax)
+    (h_sortImpl : ∀ m s blocks, ∃ pick plan,
+      KV.Sort.extSort KV.Sort.suffixLt KV.Sort.combineCounts pick (toBlocks blocks) plan =
+        some ((I.sortCombine m s blocks).map toRec))
+    (sorters : Mem → Sched → Nat → Sorters)
+    (h_stages : ∀ m s full, I.post m s opts full =
+      render (estimateFromWith (sorters m s) opts.cfg opts.pruneVocab opts.fallback full))
+    (h_sorters : ∀ m s n, SortsOK (sorters m s n))
+    (hk : opts.cfg.keepSpecials = true)
+    (m₁ m₂ : Mem) (s₁ s₂ : Sched) :
+    lmplzOut I m₁ s₁ opts text = lmplzOut I m₂ s₂ opts text :=
+  lmplz_indep_discharged2 I render opts hN text hash unk bos eos unkCapHash xOf hx h_enc hsp hinj hnz hmax
+    h_sortImpl sorters h_stages h_sorters hk m₁ m₂ s₁ s₂
 
 /-! ## chain block boundaries inside the pipeline: the two compacting iterators -/
 
